@@ -6,6 +6,7 @@ import vlib
 def replay_flow(rep, module, cases, *, k=1, env=None, timeout=900, nontrivial=None, sample_n=3, key_of=None):
     """write cases, run `vh replay <module>`, fold verdicts into the report. Returns verdict rows."""
     wd = rep.wd
+    cases = sorted(cases, key=lambda c: json.dumps(c, sort_keys=True))   # TLC's emission order depends on worker timing
     cpath = os.path.join(wd, "cases-%s.ndjson" % module)
     opath = os.path.join(wd, "verdicts-%s.ndjson" % module)
     vlib.write_ndjson(cpath, cases)
